@@ -57,6 +57,14 @@ Reading (chosen so that the minimally repaired code is right; DESIGN.md "### C14
     The keyword defaults (threshold, ppq, mpq, `adjust_offsets_w_sustain(threshold=...)`) are not fixed by the property:
     every clause is judged under whatever value is in force, and the model takes them from the regenerated tables.
     The reader side of `PerformedNote` (`note[key]`, `in`, `len`, `del`, `copy`) is compared with the model only.
+  * (round 6) "all note lists ... unsorted order": the ORDER of `pp.notes` is no input of the property - the sounding end of
+    a note is fixed by its release, the pedal stream and the onsets of the OTHER notes of its pitch.  So a part holding
+    the same notes in another order (after `pp.notes.sort()`, `.sort(reverse=True)`, `.reverse()`, or built from a
+    rearranged list) gives every note the same sounding end wherever the property fixes it (clause `order`), and a part
+    rebuilt from the PERFORMANCE's note array (rows sorted by onset and pitch) has the same (pitch, velocity, onset,
+    sounding end) table.  "agree under ppq and mpq" = the tick is the time rounded half to even to whole ticks (the
+    reading clause `rows` always used), hence within half a tick of it, and `midi_ticks_to_seconds` of k is k ticks.
+    The comparison protocol of `PerformedNote` (`<`, `<=`, `>`, `>=`, `==`, `hash`, `str`) is compared with the model only.
 """
 import os
 from fractions import Fraction
@@ -68,7 +76,7 @@ PROPERTY = "C14"
 DRIVER = "drv_c14"
 PROPS = ["PartituraModel.Props.C14", "PartituraModel.Props.C14Dict", "PartituraModel.Props.C14Arrays",
          "PartituraModel.Props.C14Types", "PartituraModel.Props.C14Hist", "PartituraModel.Props.C14Box",
-         "PartituraModel.Props.C14Tables"]
+         "PartituraModel.Props.C14Tables", "PartituraModel.Props.C14Order", "PartituraModel.Props.C14Ticks"]
 TRUSTED = [
     "numpy primitives through their documented contracts: argsort(kind='stable') returns a stable sort "
     "(Props.C14Arrays.stable_sort_unique: every list meeting the contract IS the model's sortBy), searchsorted(left) "
@@ -94,6 +102,15 @@ TRUSTED = [
     "Python list statements on `pp.notes` / `pp.controls` / `perf.performedparts` (del, insert, append, item assignment) "
     "and `isinstance(x, typing.Iterable)` are modelled as the list functions removeAt / insertAt / setAt and the three-way "
     "`PerfArg`; negative indices are not generated",
+    "(round 6) Python's `list.sort()` is a stable sort that decides by `__lt__` alone, `sort(reverse=True)` = reverse, stable "
+    "sort, reverse (CPython's documented behaviour), `list.reverse()`: modelled as `reorder` (Props.C14Order.sort_spec proves "
+    "that EVERY stable ascending arrangement is the model's); compared on every reordering statement of the `ohist` stream",
+    "(round 6) harness/translate_c14.py gen_c14_order: the key `<` compares, the key `hash` reads, the keys `==` does not see, "
+    "the head of `str(note)`, the tick scale 10^6, round-half-to-even and the keyword defaults of the tick conversions are "
+    "obtained by probing two notes that differ in ONE key out of id / pitch / note_on / note_off / sound_off / velocity / "
+    "track / channel and six tie times: a dependence on several keys at once is seen by the `cmp` stream only",
+    "(round 6) the `ticks` stream uses tempo / resolution pairs whose ticks-per-second is an integer or dyadic and dyadic "
+    "times, so that binary64 evaluates 1e6*ppq*t/mpq exactly (exact ties); for other pairs the float evaluation is trusted as before",
 ]
 PARTIAL = [
     "pedal down at the release with no later pedal-up event and no later re-strike: the property names no moment; "
@@ -114,6 +131,15 @@ PARTIAL = [
     "each renumbering (box_history_unique), not between",
     "the reader side of PerformedNote (`note[key]`, `in`, `len`, `del`, `copy`, reader_keys / copy_iff_valid) is modelled and "
     "compared; the property says nothing about it, so there is no oracle clause (a disagreement is reported without a failing input)",
+    "(round 6) the comparison protocol of PerformedNote (`<`, `<=`, `>`, `>=`, `==`, `hash`, `str`; compare_by_onset, "
+    "note_order_total_preorder, note_eq_iff, eq_same_hash) and WHICH arrangement `pp.notes.sort()` produces are modelled and "
+    "compared; the property says nothing about them (its clauses hold for EVERY arrangement: sound_order_free), so there is no "
+    "oracle clause for them",
+    "(round 6) order-freeness is proved for the sounding ends (sound_order_free, sound_perm_pairs, reorder_commutes_assign, "
+    "from_array_any_order); statements that address notes BY POSITION (`pp.notes[i][key] = v`, `del pp.notes[i]`) mean another "
+    "note after a reordering - histories are proved as they run (yhistory_recompute), not up to reordering",
+    "(round 6) rows_ticks_agree assumes no given `note_on_tick` (a given tick is used as it is) and positive ppq / mpq "
+    "(mpq = 0 divides by zero: the model rejects, numpy answers inf / raises - not compared)",
 ]
 RULE = ("random performed parts: 0-9 notes over 1-3 pitches with times from a small per-case pool of multiples of 1/64 "
         "(forcing overlapping/repeated/zero-length notes and exact coincidences of pedal events with releases and onsets, "
@@ -138,6 +164,12 @@ RULE = ("random performed parts: 0-9 notes over 1-3 pitches with times from a sm
         "tuple, generator, iter, map, single part, list with a foreign item, non-iterable, string, dict x ensure_unique_tracks "
         "given / left out x parts whose notes, controls, programs and key / time signatures / other meta events sit on "
         "shared, missing (-1) and unused tracks, then `perf[i] = pp`, append and renumberings (kind box). "
+        "Round 6: histories that also sort / reverse-sort / reverse the note list, most reorderings followed (half of them "
+        "preceded) by a threshold assignment (kind ohist; at each assignment the same notes reversed and sorted by release "
+        "must sound the same); two PerformedNotes - independent, or one a copy of the other with at most one key changed - "
+        "under < <= > >= == hash str (kind cmp); 3-10 dyadic times (whole ticks, exact ties of both parities, 2^-3..2^-12 "
+        "beside a tie) x 10 tempo / resolution pairs through both tick conversions (kind ticks); parts with pairwise "
+        "different (onset, pitch) rebuilt from Performance(pp | [pp]).note_array() restricted to a column subset (kind fnap). "
         "distinct = distinct "
         "request text; non-trivial = at least one note and one pedal event (part/hist cases), at least two (part, track) "
         "keys (track cases), at least two notes (perf), non-empty array (ss/asort)")
@@ -157,7 +189,15 @@ LEVEL_TEXT = ("Lean theorems over the executable model of PerformedNote (constru
               "'setting it recomputes every note' is proved over histories that also remove, insert and copy notes "
               "and edit the control stream in place (xhistory_recompute); the Performance container is modelled with "
               "its argument dispatch and the meta events, renumbering is proved total, unique, num_tracks-preserving "
-              "and idempotent (sanitize_box_spec, sanitize_box_idempotent) over every history of statements on it.")
+              "and idempotent (sanitize_box_spec, sanitize_box_idempotent) over every history of statements on it.  Round 6: "
+              "the ORDER of the note list is proved irrelevant (sound_order_free: any permutation of the notes, any "
+              "controls, any threshold - every note keeps its sounding end; reorder_commutes_assign: sort / reverse then "
+              "assign = assign then sort / reverse), also for the part rebuilt from the Performance's sorted note array "
+              "(rebuilt_from_performance_array) and over all histories that also reorder the list (yhistory_recompute); "
+              "'seconds and ticks agree' is quantified for all times and all positive ppq / mpq (tick_within_half, "
+              "tick_exact_on_grid, tick_mono, rows_ticks_agree: onset tick within half a tick, tick duration >= 0 and "
+              "within one tick); the comparison protocol of PerformedNote and the tick scale are regenerated "
+              "(Gen/C14Order.lean) and modelled (Model/PedalOrder.lean).")
 
 G = 64  # time grid: multiples of 1/G
 
@@ -770,6 +810,112 @@ def gen_box(rng):
     return d
 
 
+# ---------------------------------------------------------------------------------- round 6 generators
+ORD_OPS = ["sort", "desc", "rev"]
+
+
+def gen_ohist(rng):
+    """a history (as xhist) in which the note list is ALSO reordered: pp.notes.sort() / .sort(reverse=True) / .reverse(),
+    most reorderings followed (and many preceded) by an assignment of the threshold"""
+    d = gen_xhist(rng)
+    thrs = [0, 63, 64, 64, 126, 127, d["thr"]]
+    ops = []
+    n_ord = 0
+    for o in d["ops"] + [None]:
+        if rng.random() < (0.35 if n_ord else 0.6):
+            t = rng.choice(thrs)
+            if rng.random() < 0.5:
+                ops.append(["T", t])
+            ops.append(["O", rng.choice(ORD_OPS)])
+            n_ord += 1
+            if rng.random() < 0.25:
+                ops.append(["O", rng.choice(ORD_OPS)])
+            if rng.random() < 0.8:
+                ops.append(["T", t if rng.random() < 0.7 else rng.choice(thrs)])
+        if o is not None:
+            ops.append(o)
+    d["ops"] = ops
+    d["k"] = "ohist"
+    return d
+
+
+def gen_cmp(rng):
+    """two performed notes for `<`, `<=`, `>`, `>=`, `==`, `hash`, `str`: independent ones, or the second a copy of the
+    first with at most one key changed (so that equality and a tie of the onsets are reached)"""
+    pool = [0.0, 0.5, 1.0, 1.0, 2.0, 3.5]
+    a = _gen_raw(rng, pool, [60, 61, 72], 0)
+    r = rng.random()
+    if r < 0.4:
+        b = _gen_raw(rng, pool, [60, 61, 72], rng.choice([0, 1]))
+    else:
+        b = dict(a)
+        if r < 0.85:
+            k = rng.choice(["id", "pitch", "note_on", "note_on", "note_on", "note_off", "sound_off", "velocity", "track", "channel",
+                            "note_on_tick", "note_off_tick", "drop_tick"])
+            if k == "id":
+                b["id"] = rng.choice(["n0", "n1", "x"])
+            elif k in ("pitch",):
+                for kk in ("pitch", "midi_pitch"):
+                    if kk in b:
+                        b[kk] = rng.choice([60, 61])
+            elif k == "note_on":
+                b["note_on"] = rng.choice([0.0, 0.25, 0.5])
+            elif k == "note_off":
+                b["note_off"] = b.get("note_off", 1.0) + rng.choice([0.0, 0.5])
+                b.pop("sound_off", None)
+            elif k == "sound_off":
+                b["sound_off"] = b.get("note_off", 1.0) + rng.choice([0.0, 0.5, 1.0])
+            elif k in ("velocity", "track", "channel"):
+                b[k] = rng.choice([0, 1, 60, 64])
+            elif k in ("note_on_tick", "note_off_tick"):
+                b[k] = rng.choice([0, 10, 2000])
+            else:
+                b.pop("note_on_tick", None)
+                b.pop("note_off_tick", None)
+    return {"k": "cmp", "a": a, "b": b}
+
+
+TICK_RATES = [(500000, 480), (500000, 512), (1000000, 96), (250000, 120), (2000000, 1), (1000000, 1), (600000, 480),
+              (750000, 384), (500000, 1), (1000000, 1000)]
+
+
+def gen_ticks(rng):
+    """times on a dyadic grid x tempo / resolution pairs whose ticks-per-second is an integer or dyadic, so that binary64
+    evaluates 1e6*ppq*t/mpq exactly: whole ticks, exact ties (k + 1/2 ticks, both parities), times just beside a tie"""
+    mpq, ppq = rng.choice(TICK_RATES)
+    rate = Fraction(10**6 * ppq, mpq)
+    ts = []
+    for _ in range(rng.randint(3, 10)):
+        r = rng.random()
+        k = rng.randint(0, 4000)
+        if r < 0.3:
+            t = Fraction(2 * k + 1, 2) / rate          # a tie
+        elif r < 0.45:
+            t = Fraction(k) / rate                     # a whole tick
+        elif r < 0.65:
+            t = (Fraction(2 * k + 1, 2) + rng.choice([-1, 1]) * Fraction(1, 2 ** rng.randint(3, 12))) / rate
+        else:
+            t = Fraction(rng.randint(0, 64 * 64), 64)
+        if t.denominator & (t.denominator - 1) or t.denominator > 2 ** 30:
+            t = Fraction(rng.randint(0, 64 * 64), 64)   # not dyadic: binary64 would not hold it
+        ts.append([t.numerator, t.denominator])
+    return {"k": "ticks", "mpq": mpq, "ppq": ppq, "ts": ts}
+
+
+def gen_fnap(rng):
+    """a part whose notes have pairwise different (onset, pitch) — the order of the performance's note array is then fixed
+    by the documented sort — for from_note_array(Performance(pp).note_array())"""
+    d = _untyped(gen_part(rng, "quick"))
+    seen, notes = set(), []
+    for n in d["notes"]:
+        if (n["on"], n["p"]) not in seen:
+            seen.add((n["on"], n["p"]))
+            n.pop("so", None)
+            notes.append(n)
+    return {"k": "fnap", "notes": notes, "controls": d["controls"], "thr": d["thrs"][0], "mpq": d["mpq"], "ppq": d["ppq"],
+            "ff": d["ff"], "sid": d["sid"], "single": rng.random() < 0.5}
+
+
 def cases(rng, tier):
     n = {"quick": 400, "thorough": 20000, "search": 6000}.get(tier, 400)
     ptier = "quick" if tier == "search" else tier
@@ -800,6 +946,15 @@ def cases(rng, tier):
             yield gen_note(rng)
         if i % 16 == 9:
             yield gen_defaults(rng)
+        # round 6: reorderings of the note list, the comparison protocol of PerformedNote, seconds <-> ticks
+        if i % 4 == 2:
+            yield gen_ohist(rng)
+        if i % 8 == 7:
+            yield gen_cmp(rng)
+        if i % 16 == 4:
+            yield gen_ticks(rng)
+        if i % 8 == 6:
+            yield gen_fnap(rng)
 
 
 # ---------------------------------------------------------------------------------- reference (oracle)
@@ -1638,6 +1793,8 @@ def _xop_tok(o):
         return "I %d %s" % (o[1], _raw_toks(o[2]))
     if o[0] == "Y":
         return "Y %d" % o[1]
+    if o[0] == "O":
+        return "O %s" % o[1]
     c = o[1]
     if c == "append":
         return "C append %s %s %s %s" % (W.i(o[2]["n"]), W.q(o[2]["t"]), W.i(o[2]["v"]), W.opt(W.i, o[2]["tr"]))
@@ -1655,8 +1812,9 @@ def eval_xhist(d):
 
     ev = Eval()
     raws, controls, thr0, ops, mpq, ppq = d["notes"], d["controls"], d["thr"], d["ops"], d["mpq"], d["ppq"]
-    ev.requests.append("xhist %d %d %d %s %s %d %s" % (thr0, mpq, ppq, _req_raws(raws), _req_controls(controls), len(ops),
-                                                      " ".join(_xop_tok(o) for o in ops)))
+    ordered = d["k"] == "ohist"
+    ev.requests.append("%s %d %d %d %s %s %d %s" % (d["k"], thr0, mpq, ppq, _req_raws(raws), _req_controls(controls), len(ops),
+                                                    " ".join(_xop_tok(o) for o in ops)))
     wf = [_wellformed_raw(r) for r in raws]
     try:
         pp = P.PerformedPart(_mk_notes(P, raws, d.get("obj")), id="P0", controls=_control_dicts(controls),
@@ -1693,6 +1851,22 @@ def eval_xhist(d):
                         if a != b:
                             ev.oracle.append("recompute: after statement %d the notes sound until %s, a part freshly built from the "
                                              "current notes and controls gives %s" % (oi, a, b))
+                        if ordered and len(cp) > 1:
+                            # (round 6) the order of the list is irrelevant: the same notes in reversed order and sorted
+                            # by release sound the same, note by note (where the property fixes the sounding end)
+                            det = [kind == "eq" for kind, _ in reference(
+                                [{"p": g["pitch"], "on": g["note_on"], "off": g["note_off"]} for g in cp], cur, o[1])]
+                            for name, perm in (("reversed", list(range(len(cp)))[::-1]),
+                                               ("sorted by release", sorted(range(len(cp)), key=lambda j: (cp[j]["note_off"], -j)))):
+                                other = P.PerformedPart([dict(cp[j]) for j in perm], controls=[dict(c) for c in pp.controls],
+                                                        sustain_pedal_threshold=o[1])
+                                c_ = _sounds(other)
+                                for pos, j in enumerate(perm):
+                                    if det[j] and c_[pos] != a[j]:
+                                        ev.oracle.append("order: after statement %d note %d sounds until %s; with the same notes %s "
+                                                         "it sounds until %s" % (oi, j, a[j], name, c_[pos]))
+                                        break
+                            cnt["order_checked_states"] = cnt.get("order_checked_states", 0) + 1
                     except Exception as e:
                         ev.oracle.append("total: building a part from the current notes raised %s: %s" % (type(e).__name__, e))
             elif o[0] == "S":
@@ -1712,6 +1886,23 @@ def eval_xhist(d):
                 contra.insert(o[1], _contra(o[2]))
             elif o[0] == "Y":
                 pp.notes[o[1]] = pp.notes[o[1]].copy()
+            elif o[0] == "O":
+                before = [(id(n), n["sound_off"]) for n in pp.notes]
+                tagged = list(zip(pp.notes, contra))
+                if o[1] == "sort":
+                    pp.notes.sort()
+                elif o[1] == "desc":
+                    pp.notes.sort(reverse=True)
+                else:
+                    pp.notes.reverse()
+                # `contra` follows its note (identity)
+                pos = {}
+                for n, cflag in tagged:
+                    pos.setdefault(id(n), []).append(cflag)
+                contra = [pos[id(n)].pop(0) for n in pp.notes]
+                if sorted(before) != sorted((id(n), n["sound_off"]) for n in pp.notes):
+                    ev.oracle.append("order: statement %d (%s) lost, duplicated or changed a note" % (oi, o[1]))
+                what = "O_" + o[1]
             else:
                 c = o[1]
                 if c == "append":
@@ -1745,8 +1936,11 @@ def eval_xhist(d):
     want = len(set([n["track"] for n in pp.notes] + [c.get("track", -1) for c in pp.controls]))
     if ntr != want:
         ev.oracle.append("tracks: num_tracks of the part is %d, its notes and controls are on %d tracks" % (ntr, want))
-    ev.impl.append(W.f_tuple(v0, "[" + ",".join(steps) + "]", rows, "%d" % ntr, _ctl_view(pp)))
-    cnt["xhist_judged_states"] = judged
+    if ordered:
+        ev.impl.append(W.f_tuple(v0, "[" + ",".join(steps) + "]", rows))
+    else:
+        ev.impl.append(W.f_tuple(v0, "[" + ",".join(steps) + "]", rows, "%d" % ntr, _ctl_view(pp)))
+    cnt["%s_judged_states" % d["k"]] = judged
     ev.info = cnt
     if pp.notes or steps:
         ev.key = ev.requests[0]
@@ -1952,6 +2146,120 @@ def eval_box(d):
     return ev
 
 
+def eval_fnap(d):
+    """round 6, composition through the PERFORMANCE's note array: from_note_array(Performance(pp).note_array()[columns])
+    has the same pitches, velocities, onsets and sounding ends as pp (as a table: the array is sorted by onset and pitch)"""
+    import partitura.performance as P
+
+    ev = Eval()
+    notes, controls, thr, mpq, ppq, ff = d["notes"], d["controls"], d["thr"], d["mpq"], d["ppq"], d["ff"]
+    raws = _note_dicts(notes, mpq, ppq, d.get("sid"))
+    ev.requests.append("fnap %d %d %d %s %s 0 %s" % (thr, mpq, ppq, _req_raws(raws), _req_controls(controls),
+                                                     " ".join(W.b(x) for x in ff)))
+    cols = (["onset_sec", "duration_sec"] if ff[0] else []) + ["onset_tick", "duration_tick", "pitch"] + (
+        ["velocity"] if ff[1] else []) + (["id"] if ff[2] else []) + (["track"] if ff[3] else []) + (["channel"] if ff[4] else [])
+    try:
+        pp = P.PerformedPart([dict(r) for r in raws], id="P0", controls=_control_dicts(controls), sustain_pedal_threshold=thr,
+                             ppq=ppq, mpq=mpq)
+        snd = _sounds(pp)
+        perf = P.Performance(pp if d.get("single") else [pp])
+        na = perf.note_array()
+    except Exception as e:
+        ev.impl.append("err")
+        if notes:
+            ev.oracle.append("total: building the part / the performance's note array raised %s: %s" % (type(e).__name__, e))
+        return ev
+    try:
+        back = P.PerformedPart.from_note_array(na[cols])
+        bna = back.note_array()
+    except Exception as e:
+        ev.impl.append("err")
+        if (ff[0] and ff[1]) or not notes:
+            ev.oracle.append("from_note_array: columns %s of the performance's array: raised %s: %s" % (cols, type(e).__name__, e))
+        return ev
+    ev.impl.append(W.f_tuple("[" + ",".join(_arow(r) for r in na) + "]", _view(back), "[" + ",".join(_arow(r) for r in bna) + "]"))
+    got = sorted((int(b["pitch"]), int(b["velocity"]), F(b["note_on"]), F(b["sound_off"])) for b in back.notes)
+    want = sorted((n["p"], n["v"], F(n["on"]), s_) for n, s_ in zip(notes, snd))
+    if got != want:
+        ev.oracle.append("from_note_array: rebuilt from the performance's note array (columns %s): (pitch, velocity, onset, "
+                         "sounding end) %s != %s" % (cols, got[:4], want[:4]))
+    ev.info = {"fnap_rows": len(na), "fnap_reordered": int([str(r["id"]) for r in na] != [str(r["id"]) for r in pp.note_array()])}
+    if len(na) >= 2:
+        ev.key = ev.requests[0]
+    return ev
+
+
+def eval_cmp(d):
+    """round 6: the comparison protocol of PerformedNote — compared with the model only (the property is silent about it)"""
+    import partitura.performance as P
+
+    ev = Eval()
+    ev.requests.append("cmp %s %s" % (_raw_toks(d["a"]), _raw_toks(d["b"])))
+    try:
+        a, b = P.PerformedNote(dict(d["a"])), P.PerformedNote(dict(d["b"]))
+    except Exception:
+        ev.impl.append("err")
+        ev.info = {"cmp_rejected": 1}
+        return ev
+    try:
+        res = [bool(a < b), bool(a <= b), bool(a > b), bool(a >= b), bool(a == b), hash(a) == hash(b)]
+        ev.impl.append(W.f_tuple(*([W.f_bool(x) for x in res] + [str(a)])))
+        ev.info = {"cmp_lt": int(res[0]), "cmp_gt": int(res[2]), "cmp_tie": int(res[1] and res[3]), "cmp_eq": int(res[4]),
+                   "cmp_samehash": int(res[5])}
+    except Exception as e:
+        ev.impl.append("raised %s" % type(e).__name__)
+    ev.key = ev.requests[0]
+    return ev
+
+
+def eval_ticks(d):
+    """round 6: seconds_to_midi_ticks / midi_ticks_to_seconds against the model, and the clause "seconds and ticks agree
+    under ppq and mpq" (within half a tick, exact on whole ticks, monotone) judged independently on exact rationals"""
+    from partitura.utils.music import seconds_to_midi_ticks, midi_ticks_to_seconds
+
+    ev = Eval()
+    mpq, ppq = d["mpq"], d["ppq"]
+    ts = [Fraction(a, b) for a, b in d["ts"]]
+    req = "%d %d %d %s" % (mpq, ppq, len(ts), " ".join(W.q(t) for t in ts))
+    ev.requests.append("ticks " + req)
+    ev.requests.append("tickback " + req)
+    try:
+        ks = [seconds_to_midi_ticks(float(t), mpq=mpq, ppq=ppq) for t in ts]
+        back = [float(midi_ticks_to_seconds(k, mpq=mpq, ppq=ppq)) for k in ks]
+    except Exception as e:
+        ev.impl += ["err", "err"]
+        ev.oracle.append("total: the tick conversion raised %s: %s" % (type(e).__name__, e))
+        return ev
+    ev.impl.append(W.f_list(W.f_int, ks))
+    ev.impl.append(("@approx", back, 1e-12))
+    tick = Fraction(mpq, 10**6 * ppq)
+    ties = whole = 0
+    for t, k in zip(ts, ks):
+        x = t / tick
+        if abs(Fraction(int(k)) - x) > Fraction(1, 2):
+            ev.oracle.append("ticks: %s s is %s ticks (mpq=%d ppq=%d), reported %d: more than half a tick off" % (t, x, mpq, ppq, k))
+        elif int(k) != ref_tick(t, mpq, ppq):
+            # the reading of "agree" every clause `rows` uses: the tick is the time rounded half to even
+            ev.oracle.append("ticks: %s s is %s ticks (mpq=%d ppq=%d), reported %d, rounded half to even %d" % (
+                t, x, mpq, ppq, k, ref_tick(t, mpq, ppq)))
+        if x.denominator == 1:
+            whole += 1
+            if int(k) != x:
+                ev.oracle.append("ticks: %s s is exactly %s ticks (mpq=%d ppq=%d), reported %d" % (t, x, mpq, ppq, k))
+        if x.denominator == 2:
+            ties += 1
+    for k, bk in zip(ks, back):
+        want = Fraction(int(k)) * tick
+        if abs(Fraction(bk) - want) > Fraction(1, 10**9) * max(1, abs(want)):
+            ev.oracle.append("ticks: %d ticks are %s s (mpq=%d ppq=%d), midi_ticks_to_seconds gives %r" % (k, want, mpq, ppq, bk))
+    for (t1, k1), (t2, k2) in zip(sorted(zip(ts, ks)), sorted(zip(ts, ks))[1:]):
+        if k1 > k2:
+            ev.oracle.append("ticks: %s s <= %s s but tick %d > tick %d" % (t1, t2, k1, k2))
+    ev.info = {"tick_times": len(ts), "tick_ties": ties, "tick_whole": whole}
+    ev.key = ev.requests[0]
+    return ev
+
+
 def evaluate(d):
     if d["k"] == "tracks":
         return eval_tracks(d)
@@ -1961,8 +2269,14 @@ def evaluate(d):
         return eval_perf(d)
     if d["k"] in ("ss", "asort", "npst"):
         return eval_np(d)
-    if d["k"] == "xhist":
+    if d["k"] in ("xhist", "ohist"):
         return eval_xhist(d)
+    if d["k"] == "cmp":
+        return eval_cmp(d)
+    if d["k"] == "fnap":
+        return eval_fnap(d)
+    if d["k"] == "ticks":
+        return eval_ticks(d)
     if d["k"] == "note":
         return eval_note(d)
     if d["k"] == "defaults":
@@ -2004,11 +2318,28 @@ def shrink(d):
                         q[f] = [dict(r, id="n%d" % k) if "id" in r else r for k, r in enumerate(q[f])]
                     yield dict(d, parts=d["parts"][:i] + [q] + d["parts"][i + 1:])
         return
-    if d["k"] in ("xhist", "note", "box"):
+    if d["k"] == "cmp":
+        for w in ("a", "b"):
+            for k in ("sound_off", "note_on_tick", "note_off_tick", "track", "channel", "velocity", "id"):
+                if k in d[w]:
+                    q = dict(d[w])
+                    del q[k]
+                    yield dict(d, **{w: q})
+        return
+    if d["k"] == "ticks":
+        for i in range(len(d["ts"])):
+            yield dict(d, ts=d["ts"][:i] + d["ts"][i + 1:])
+        return
+    if d["k"] == "fnap":
+        for f in ("controls", "notes"):
+            for i in range(len(d[f])):
+                yield dict(d, **{f: d[f][:i] + d[f][i + 1:]})
+        return
+    if d["k"] in ("xhist", "ohist", "note", "box"):
         ops = d["ops"]
         for i in range(len(ops) - 1, -1, -1):
             yield dict(d, ops=ops[:i] + ops[i + 1:])
-        if d["k"] == "xhist":
+        if d["k"] in ("xhist", "ohist"):
             for i in range(len(d["controls"])):
                 if not any(o[0] == "C" for o in ops):
                     yield dict(d, controls=d["controls"][:i] + d["controls"][i + 1:])
